@@ -457,6 +457,12 @@ impl<const N: usize> Subscriptions<N> {
         })
     }
 
+    /// Return `true` if some subscription in the table has expired and is waiting to be removed.
+    pub(crate) fn any_expired(&self, now: Instant) -> bool {
+        self.state
+            .lock(|state| state.borrow().subscriptions.iter().any(|s| s.is_expired(now)))
+    }
+
     /// Remove entries that every subscription has already reported on.
     pub(crate) fn purge_reported_changes(&self) {
         self.state
